@@ -313,7 +313,19 @@ func mapOrder(w *core.World, r *core.Report) {
 							continue
 						}
 						site := core.Site(f, "slice filled from a map range")
-						if reason, ok := exceptions[core.FuncKey(f)]; ok {
+						reason, ok := exceptions[core.FuncKey(f)]
+						if !ok && core.IsInlined(f) {
+							// code moved into an unexported helper keeps the exception of every function it was moved out of
+							ok = true
+							for _, hk := range core.HostKeys(f) {
+								if r2, ok2 := exceptions[hk]; ok2 {
+									reason = r2
+								} else {
+									ok = false
+								}
+							}
+						}
+						if ok {
 							r.Info("MAP-ORDER", site, w.InstrPos(c), "frozen exception: "+reason)
 							continue
 						}
